@@ -482,17 +482,28 @@ Proof.
       rewrite bits_low32 by lia. rewrite Estream.
       replace (Z.to_nat n) with (Z.to_nat (8 * j) + Z.to_nat nb)%nat by lia. rewrite bits_of_split. rewrite Z2Nat.id by lia.
       rewrite <- !app_assoc. f_equal; [|f_equal].
-      * apply bits_of_congr. rewrite Z2Nat.id by lia. rewrite Ev. rewrite Z.div_add_l by lia. rewrite Z.div_small by lia.
+      * apply bits_of_congr. rewrite Z2Nat.id by lia. rewrite Ev. rewrite Z.div_add_l by lia. rewrite (Z.div_small low) by lia.
         rewrite Z.add_0_r. subst A. now rewrite Z.mod_mod by lia.
       * apply bits_of_congr. rewrite Z2Nat.id by lia. rewrite Ev. rewrite Z.add_comm, Z.mod_add by lia.
         subst low. now rewrite Z.mod_mod by lia.
   - (* num_of_bits was a multiple of 8 *)
-    assert (nb = 0) by lia. subst nb. assert (n = 8 * j) as En by lia.
-    rewrite Z.pow_0_r, Z.mul_1_r in Hmod.
+    assert (nb = 0) as Enb0 by lia. assert (n = 8 * j) as En by lia.
+    rewrite Enb0, Z.pow_0_r, Z.mul_1_r in Hmod.
     split; [|split].
     + split; [rewrite Elb; lia|]. split; [rewrite El; apply Z.mod_pos_bound; lia|exact HB1].
     + apply Z.mod_pos_bound. lia.
     + rewrite HS. unfold rbits at 1. rewrite Elb, El. rewrite bits_low32 by lia. f_equal.
       rewrite Hmod. rewrite <- En. apply bits_of_congr. rewrite Z2Nat.id by lia. subst A. rewrite <- En.
       now rewrite Z.mod_mod by lia.
+Qed.
+
+(* ... i.e. exactly what the abstract reader [get_bits] returns on the same stream *)
+Corollary c_decodebits_get_bits : forall r n, rok r -> 0 <= n <= 32 ->
+  n <= rb_lastbits r + 8 * Z.of_nat (length (rb_bytes r)) ->
+  get_bits (Z.to_nat n) (rbits r) = Some (fst (c_decodebits r n), rbits (snd (c_decodebits r n))) /\
+  rok (snd (c_decodebits r n)).
+Proof.
+  intros r n Hok Hn Hlen. pose proof (c_decodebits_spec r n Hok Hn Hlen) as S.
+  destruct (c_decodebits r n) as [v r']. destruct S as (Hok' & Hv & Hs). cbn [fst snd].
+  split; [|exact Hok']. rewrite Hs. apply bits_roundtrip. rewrite Z2Nat.id by lia. exact Hv.
 Qed.
